@@ -213,6 +213,134 @@ for _k in specs.ALL_KINDS:
     COMPONENTS[f"ind.{_k}"] = (_mk_ind_component(_k), "full")
 
 
+def _mk_amorph_component(fn):
+    def genf(rng, size):
+        return _ind_case(rng, size, specs.gen_amorph_spec(rng, [fn]), programs=rng.random() < 0.2)
+
+    return genf
+
+
+AMORPH_FNS = [f for f in specs.ANALYSIS if f not in ("above", "below")]
+for _f in AMORPH_FNS:
+    COMPONENTS[f"amorph.{_f}"] = (_mk_amorph_component(_f), "full")
+
+
+def gen_hexital(rng, size, ha_ok=False, life_ok=False, programs=True, enc=None):
+    """a Hexital with 1..4 members (mixed timeframes), fed through a schedule, with façade operations"""
+    n = rng.randint(0, size)
+    htf = gen.gen_timeframe(rng) if rng.random() < 0.25 else None
+    members = []
+    base_step = gen.tf_seconds(htf) if htf else rng.choice([60, 60, 300, 3600])
+    for _ in range(rng.randint(1, 4)):
+        sp = specs.gen_amorph_spec(rng) if rng.random() < 0.15 else specs.gen_spec(rng)
+        if rng.random() < 0.4:
+            mult = rng.choice([2, 3, 5])
+            unit, k = (htf[0], int(htf[1:])) if htf else ("T", rng.choice([1, 5]))
+            sp["tf"] = f"{unit}{k * mult}"
+        members.append(sp)
+    stream, meta = gen.gen_stream(rng, n, step=max(1, base_step // rng.choice([1, 1, 2, 5])))
+    sched, shape = gen.gen_schedule(rng, n)
+    parts = gen.split_by(stream, sched)
+    enc = enc or rng.choice(["candle", "dict", "list"])
+    ha = ha_ok and rng.random() < 0.3
+    life = base_step * rng.randint(5, 60) if (life_ok and rng.random() < 0.3) else None
+    lines = []
+    for sp in members:
+        lines.append(f"hmember {specs.spec_params(sp)} form={rng.choice(['obj', 'obj', 'dict'])}")
+    lines.append(f"hnew tf={htf or '-'} fill={int(rng.random() < 0.3 and htf is not None)} ha={int(ha)} life={'-' if life is None else life} "
+                 + wire.enc_candles(parts[0]))
+    lines += ["hcalc", "hsnap"]
+    names = []
+    for p in parts[1:]:
+        lines.append(f"happ enc={enc} " + wire.enc_candles(p))
+        lines.append("hsnap")
+        if programs and rng.random() < 0.25:
+            lines.append("hacc names")
+            k = rng.random()
+            tgt = "-" if rng.random() < 0.3 else rng.choice(["EMA_3", "SMA_5", "TR", "OBV", "RSI_14"])
+            if k < 0.2:
+                lines.append(f"hpurge name={tgt}")
+            elif k < 0.4:
+                lines.append(f"hrecalc name={tgt}")
+            elif k < 0.55:
+                lines.append(f"hcidx name={tgt} idx={rng.choice([-1, -2, 0, 3])}")
+            elif k < 0.7:
+                lines.append(f"hrem name={tgt}")
+            elif k < 0.85:
+                lines.append(f"hmember {specs.spec_params(specs.gen_spec(rng))} form=obj")
+                lines.append("hadd")
+            lines.append("hcalc")
+            lines.append("hsnap")
+    meta.update({"members": len(members), "htf": bool(htf), "mixed_tf": any(m.get("tf") for m in members), "enc": enc,
+                 "ha": ha, "life": life is not None, "schedule": shape, "n": n})
+    return lines, meta
+
+
+@component("hexital")
+def gen_hexital_plain(rng, size):
+    return gen_hexital(rng, size)
+
+
+@component("hexital.ha")
+def gen_hexital_ha(rng, size):
+    return gen_hexital(rng, size, ha_ok=True)
+
+
+@component("hexital.life")
+def gen_hexital_life(rng, size):
+    return gen_hexital(rng, size, life_ok=True)
+
+
+def _rand_reading(rng):
+    k = rng.random()
+    if k < 0.2:
+        return "n"
+    if k < 0.3:
+        return "{x=" + wire.enc_num(float(rng.randint(0, 9))) + ";y=n}"
+    if k < 0.4:
+        return wire.enc_num(rng.random() < 0.5)
+    if k < 0.7:
+        return wire.enc_num(rng.randint(-5, 5))
+    return wire.enc_num(round(rng.uniform(-5, 5), 3))
+
+
+def _mk_analysis_component(fn):
+    """direct calls of an analysis function at every index (positive and negative) of a list whose
+    candles carry arbitrary readings A and B (numbers, None, bools, dicts, or absent)"""
+
+    def genf(rng, size):
+        n = rng.randint(0, min(size, 24))
+        stream, meta = gen.gen_stream(rng, n)
+        lines = ["ind kind=HLA round=4 name=- suffix=- tf=- fill=0 ha=0 life=- " + wire.enc_candles(stream)]
+        for i in range(n):
+            for nm in ("A", "B"):
+                if rng.random() < 0.75:
+                    lines.append(f"iset idx={i} sub={int(rng.random() < 0.2)} name={nm} val={_rand_reading(rng)}")
+        args = specs.ANALYSIS[fn]
+        for _ in range(3):
+            toks = [f"fn={fn}"]
+            pool = ["A", "B", "close", "high", "A.x", "Zmissing"]
+            if "ind" in args:
+                toks.append(f"ind={rng.choice(pool)}")
+            if "a" in args:
+                toks.append(f"a={rng.choice(pool)} b={rng.choice(pool)}")
+            if "length" in args:
+                toks.append(f"length={rng.choice([1, 1, 2, 3, 4, 7, 30])}")
+            if "lookback" in args and rng.random() < 0.5:
+                toks.append(f"lookback={rng.choice([1, 2, 3, 12])}")
+            base = " ".join(toks)
+            for i in list(range(-n - 1, n + 1)) + [None]:
+                lines.append(f"ana {base}" + ("" if i is None else f" idx={i}"))
+        meta.update({"fn": fn, "n": n})
+        return lines, meta
+
+    return genf
+
+
+for _f in specs.ANALYSIS:
+    COMPONENTS[f"analysis.{_f}"] = (_mk_analysis_component(_f), "full")
+
+
 # --------------------------------------------------------------------------------------
 # running
 
@@ -273,7 +401,7 @@ def _worker(args):
             if diff is None:
                 diff = {"line": min(len(a), len(b)), "impl": f"<{len(a)} lines>", "model": f"<{len(b)} lines>"}
         errs = sorted({x for x in io if x.startswith("err ")})
-        nontrivial = len(lines) > 2 and any(x.startswith("C ") or x[:2] in ("i:", "f:") or x.isdigit() for x in io)
+        nontrivial = len(lines) > 2 and any(x.startswith("C ") or x[:2] in ("i:", "f:", "b:") or x.isdigit() for x in io)
         res.append({"case": i, "meta": meta, "diff": diff, "errors": errs, "nontrivial": nontrivial,
                     "hash": hash(tuple(lines)), "nlines": len(lines)})
     return res
